@@ -1,6 +1,8 @@
 import XrsVerif.Proofs.ZonalReduce
 import XrsVerif.Proofs.ZonalLoop
 import XrsVerif.Gen.Zonal
+import XrsVerif.Proofs.ILZonal
+import XrsVerif.Proofs.NV
 /-
   C02 -- Zonal statistics summarise exactly the valid cells of each zone.
 
@@ -47,6 +49,82 @@ theorem gen_strides_eq_model {α : Type} [DecidableEq α] (fz uz : List α) (fue
 /-- a concrete instance: `_strides([1,1,2,2,2,5], [1,2,3,5]) = [2,5,5,6]` (fuel 7 > 6 elements) -/
 example : Gen.Zonal.stridesProg.run (stridesArrs [1, 1, 2, 2, 2, 5] [1, 2, 3, 5]) 7 = [2, 5, 5, 6] := by
   rw [gen_strides_eq_model _ _ _ (by decide)]; decide
+
+/-! ### `_strides` at layer T3: the ILang program generated from the source refines the model
+
+  `Gen.IL.strides` is `_strides` translated statement by statement by the general translator of layer T3
+  (harness/facts_il.py; ILang has numba's index normalisation and bounds checks that stop the program, `while` with
+  fuel, IEEE `==` on the elements).  `il_strides_refines`: for **all** arrays the program ends with `return`, never
+  reads out of range, leaves its inputs unchanged and its integer array `strides` is `stridesBy Fl.eq`, the hand
+  model with the number type's `==` as the comparison.  `il_strides_eq_model`: on ids that `==` compares like
+  equality (finite numbers; `some : K → NV K`) that is exactly `strides fz 0 uz`, the zone breaks every theorem
+  below is stated with; `il_zone_breaks`: run on the sorted, stripped zone ids of `_sort_and_stride` it returns the
+  model's `breaks`.  The statements are about `Gen.IL.strides` itself: an edit of the loop changes the obligation.
+  (The older tie `gen_strides_eq_model` above stays in place.) -/
+section il
+open XrsVerif.IL
+variable {F : Type} [Fl F]
+
+/-- **il_strides_refines.** the generated `_strides`, any two numeric arrays (also unsorted, with NaN / inf,
+    empty), fuel > number of elements -/
+theorem il_strides_refines (fz uz : List F) (s : State F) (fuel : Nat) (hin : StridesInput fz uz s)
+    (hf : fz.length < fuel) :
+    let r := Gen.IL.strides.run s fuel
+    r.ctl = .ret ∧ r.shp "strides" = [uz.length] ∧ r.fa = s.fa ∧
+    r.ia "strides" = (stridesBy Fl.eq fz 0 uz).map (fun (k : Nat) => (k : Int)) :=
+  strides_refines fz uz s fuel hin hf
+
+/-- **il_strides_eq_model.** ids embedded into the number type so that `==` on images is equality of ids: the
+    generated program computes the model's `strides` -/
+theorem il_strides_eq_model {α : Type} [DecidableEq α] (emb : α → F)
+    (hemb : ∀ x y, Fl.eq (emb x) (emb y) = decide (x = y)) (fz uz : List α) (s : State F) (fuel : Nat)
+    (hin : StridesInput (fz.map emb) (uz.map emb) s) (hf : fz.length < fuel) :
+    let r := Gen.IL.strides.run s fuel
+    r.ctl = .ret ∧ r.shp "strides" = [uz.length] ∧ r.fa = s.fa ∧
+    r.ia "strides" = (strides fz 0 uz).map (fun (k : Nat) => (k : Int)) :=
+  strides_refines_model emb hemb fz uz s fuel hin hf
+
+/-- **il_zone_breaks.** the `zone_breaks` of `_sort_and_stride`: the generated `_strides`, called with the sorted
+    zone ids (non-finite ones stripped) and the unique ids, returns the model's `breaks` -- the slices
+    `stats_value` and the theorems below are about are cut at the positions the *generated program* computes -/
+theorem il_zone_breaks (strip : Bool) (zones : Nat → X κ) (values : Nat → ν) (uniq : List κ) (perm : List Nat)
+    (emb : κ → F) (hemb : ∀ x y, Fl.eq (emb x) (emb y) = decide (x = y)) (s : State F) (fuel : Nat)
+    (hin : StridesInput
+      ((((sortAndStride strip zones values uniq perm).idx.map zones).filterMap X.toFin?).map emb) (uniq.map emb) s)
+    (hf : perm.length < fuel) :
+    let r := Gen.IL.strides.run s fuel
+    r.ctl = .ret ∧
+    r.ia "strides" = (sortAndStride strip zones values uniq perm).breaks.map (fun (k : Nat) => (k : Int)) := by
+  have hlen : (((sortAndStride strip zones values uniq perm).idx.map zones).filterMap X.toFin?).length < fuel := by
+    refine Nat.lt_of_le_of_lt (Nat.le_trans (List.length_filterMap_le _ _) ?_) hf
+    simp only [List.length_map, sortAndStride]
+    split
+    · exact List.length_filter_le _ _
+    · exact Nat.le_refl _
+  have h := strides_refines_model emb hemb _ uniq s fuel hin hlen
+  exact ⟨h.1, h.2.2.2⟩
+
+end il
+
+section ilExample
+open XrsVerif.IL
+local instance : Trig ℚ := ⟨id, id, fun a _ => a, id, id, id, id⟩
+
+/-- non-vacuity: the generated program on `_strides([1,1,2,2,2,5], [1,2,3,5])` over `NV ℚ` returns `[2,5,5,6]` -/
+example : ((Gen.IL.strides.run (stridesState (([1, 1, 2, 2, 2, 5] : List ℚ).map some) (([1, 2, 3, 5] : List ℚ).map some)) 7).ctl,
+      (Gen.IL.strides.run (stridesState (([1, 1, 2, 2, 2, 5] : List ℚ).map some) (([1, 2, 3, 5] : List ℚ).map some)) 7).ia "strides")
+    = (Ctl.ret, [2, 5, 5, 6]) := by
+  have h := il_strides_eq_model (F := NV ℚ) some (fun x y => rfl) [1, 1, 2, 2, 2, 5] [1, 2, 3, 5] _ 7
+    (stridesState_input _ _) (by decide)
+  rw [Prod.mk.injEq]
+  exact ⟨h.1, by rw [h.2.2.2]; decide⟩
+
+/-- non-vacuity with a NaN and an unsorted array (`==` never holds for NaN): the general form -/
+example : (Gen.IL.strides.run (stridesState ([some 1, none, some 1] : List (NV ℚ)) [some 1, none]) 4).ia "strides" = [1, 1] := by
+  have h := il_strides_refines (F := NV ℚ) [some 1, none, some 1] [some 1, none] _ 4 (stridesState_input _ _) (by decide)
+  rw [h.2.2.2]; decide
+
+end ilExample
 
 /-- **rows**: one row per distinct finite zone id present among the cells, ascending, restricted
     to the requested ids that exist -/
